@@ -89,6 +89,7 @@ fn universe(depths: u8) -> Vec<Query> {
 }
 
 fn judge(seq: &[Query], use_value: bool, a: &mut Acc, exhaustive: bool) {
+    tick();
     let (viol, nt) = match std::panic::catch_unwind(|| run_sequence(seq, use_value)) {
         Ok(r) => r,
         Err(_) => {
@@ -192,13 +193,13 @@ pub fn run(shard: &Shard) -> i32 {
         }
         return 0;
     }
-    if shard.idx == 0 { with_acc(comparator_consistency); }
+    if shard.idx == 0 && shard.only_case.is_none() { with_acc(comparator_consistency); }
     // (a) exhaustive query sequences (one depth) up to length 3 (quick) / 4 (thorough), sharded by the first query
     let u = universe(1);
     let maxlen = if shard.quick() { 3 } else { 4 };
     let mut complete = true;
     for (i0, q0) in u.iter().enumerate() {
-        if i0 as u64 % shard.n != shard.idx { continue; }
+        if i0 as u64 % shard.n != shard.idx || shard.only_case.is_some() { continue; }
         if shard.start.elapsed() > shard.budget / 2 { complete = false; break; }
         for use_value in [false, true] {
             let mut seq = vec![*q0];
